@@ -55,6 +55,14 @@ class Scenario:
         else:
             self.events.append(dict(e="Add", r=r, rc="ERR%x" % rc, id=0))
 
+    def grow(self):
+        """the caller enlarges the request cache (typically after a 'cache full')"""
+        self.cap = getattr(self, "cap", self.o["N"]) + self.rng.choice([1, 1, 2, 3])
+        out = self.s.cmd("SETCACHE %d" % self.cap)
+        if "rc=0x0" not in out[-1]:
+            raise vlib.CheckError("enlarging the cache failed: %s" % out[-1])
+        self.events.append(dict(e="Grow", n=self.cap))
+
     def addconf(self):
         """a configuration request (tags after the ordinary requests)"""
         if self.next_c > R + NCONF:
@@ -176,8 +184,10 @@ class Scenario:
 
     def step(self):
         rng = self.rng
-        a = rng.choices(["add", "run", "srv", "peer", "tick", "poll", "open", "addconf"], weights=[5, 8, 6, 0.5, 2, 1, 0.5, 0.8])[0]
-        if a == "addconf":
+        a = rng.choices(["add", "run", "srv", "peer", "tick", "poll", "open", "addconf", "grow"], weights=[5, 8, 6, 0.5, 2, 1, 0.5, 0.8, 0.5])[0]
+        if a == "grow":
+            self.grow()
+        elif a == "addconf":
             self.addconf()
         elif a == "add":
             if self.next_r <= R:
@@ -275,8 +285,10 @@ class HttpScenario(Scenario):
         return True
 
     def step(self):
-        a = self.rng.choices(["add", "run", "srv", "tick", "open", "addconf"], weights=[5, 8, 6, 2, 0.6, 0.8])[0]
-        if a == "addconf":
+        a = self.rng.choices(["add", "run", "srv", "tick", "open", "addconf", "grow"], weights=[5, 8, 6, 2, 0.6, 0.8, 0.5])[0]
+        if a == "grow":
+            self.grow()
+        elif a == "addconf":
             self.addconf()
         elif a == "open":
             # the transfer library refuses (or again accepts) new exchanges: curl_multi_add_handle fails
@@ -324,7 +336,7 @@ INVS = ["TypeOK", "ExactlyOnce", "ResponseOnlyIfValidReply", "CountsAgree", "Ref
 def model_check(chk, name, o, bounds, timeout):
     d = vlib.scratch("c13mc")
     cfg = os.path.join(d, name + ".cfg")
-    tlc_cfg(cfg, "MCSpec", o, INVS, "  MaxClock = %d\n  MaxWire = %d\n  MaxMsgs = %d\nVIEW View\n" % bounds)
+    tlc_cfg(cfg, "MCSpec", o, INVS, "  MaxClock = %d\n  MaxWire = %d\n  MaxMsgs = %d\n" % bounds + "  MaxCap = %d\nVIEW View\n" % o.get("MaxCap", o["N"]))
     r = vlib.run_tlc("MC_AsyncService.tla", cfg, timeout=timeout, xmx="24g")
     if r.violation:
         raise vlib.CheckError("AsyncService.tla violates %s in config %s:\n%s" % (r.violation, name, r.out[-3000:]))
@@ -425,7 +437,7 @@ def liveness(chk, http):
     d = vlib.scratch("c13mc")
     name = "live_http" if http else "live_tcp"
     cfg = os.path.join(d, name + ".cfg")
-    tlc_cfg(cfg, "FairSpec", dict(N=1, SndTo=1, RcvTo=1, ConTo=1, MaxReq=1, R=2, Http=http), [], "  MaxClock = 6\n  MaxWire = 1\n  MaxMsgs = 1\nPROPERTY EventuallyReturned\n")
+    tlc_cfg(cfg, "FairSpec", dict(N=1, SndTo=1, RcvTo=1, ConTo=1, MaxReq=1, R=2, Http=http), [], "  MaxClock = 6\n  MaxWire = 1\n  MaxMsgs = 1\n  MaxCap = 1\nPROPERTY EventuallyReturned\n")
     r = vlib.run_tlc("MC_AsyncService.tla", cfg, timeout=1200, xmx="16g")
     if r.violation or "Temporal properties were violated" in r.out or "violated" in r.out:
         raise vlib.CheckError("AsyncService.tla violates the liveness property EventuallyReturned (%s):\n%s" % (name, r.out[-3000:]))
@@ -436,7 +448,7 @@ def strict_http_counterexample(chk):
     """the strict statement CauseOnOwnExchange is violated by the DESIGN: TLC must find the counterexample (else the finding's model side is gone)"""
     d = vlib.scratch("c13mc")
     cfg = os.path.join(d, "http_strict.cfg")
-    tlc_cfg(cfg, "MCSpec", dict(N=2, SndTo=1, RcvTo=1, ConTo=1, MaxReq=2, R=2, Http=True), ["StrictOwnExchange"], "  MaxClock = 1\n  MaxWire = 2\n  MaxMsgs = 1\nVIEW View\n")
+    tlc_cfg(cfg, "MCSpec", dict(N=2, SndTo=1, RcvTo=1, ConTo=1, MaxReq=2, R=2, Http=True), ["StrictOwnExchange"], "  MaxClock = 1\n  MaxWire = 2\n  MaxMsgs = 1\n  MaxCap = 2\nVIEW View\n")
     r = vlib.run_tlc("MC_AsyncService.tla", cfg, timeout=900, xmx="16g")
     chk.add(strict_http_invariant="violated as expected (counterexample of %s states)" % r.out.count("State ") if r.violation else "NOT violated")
     if not r.violation:
@@ -476,6 +488,8 @@ def run(chk, tier, seed):
     model_check(chk, "n1r2", dict(N=1, SndTo=1, RcvTo=1, ConTo=1, MaxReq=1, R=2), (1, 2, 2) if tier == "quick" else (2, 2, 2), 1500)
     model_check(chk, "http_n1r2", dict(N=1, SndTo=1, RcvTo=1, ConTo=1, MaxReq=1, R=2, Http=True), (2, 2, 2), 900)
     # the configuration slot: one ordinary request and two configuration requests, configuration PDUs among the server's messages
+    # the cache is enlarged while requests are outstanding
+    model_check(chk, "grow_n1r2", dict(N=1, SndTo=1, RcvTo=1, ConTo=1, MaxReq=2, R=2, MaxCap=2), (1, 1, 1), 900)
     model_check(chk, "conf_n1c2", dict(N=1, SndTo=1, RcvTo=1, ConTo=1, MaxReq=2, R=0, C=2), (1, 2, 2), 900)
     if tier == "thorough":
         model_check(chk, "conf_n1r1c2", dict(N=1, SndTo=1, RcvTo=1, ConTo=1, MaxReq=2, R=1, C=2), (1, 2, 2), 2400)
